@@ -50,7 +50,9 @@ RULE = ("a case = experiment descriptor (1-3 environments x 1-3 learners x 1-2 e
         "and dies by os._exit when evaluation n+1 starts (n generated); the file it left is resumed and the n finished triples must "
         "not be evaluated again. 'big': fixed experiments with 360 KB logs and 70-200 KB records, cuts around the 64 KiB blocks "
         "(4 KiB for gz) the tail search of the restore works in. File kinds everywhere: log.txt, log.gz and paths that merely "
-        "contain '.gz' (log.gz.bak, runs.gz.d/log.txt - gzip by coba's rule). A case is non-trivial when a crash offset lies strictly "
+        "contain '.gz' (log.gz.bak, runs.gz.d/log.txt - gzip by coba's rule). In 'point'/'multiproc' (1 in 2) and 'sweep' (1 in 3) the "
+        "records of the uninterrupted log are first permuted the way worker output can arrive in a multi-process run (version and "
+        "experiment record stay first; E/L/V/I records in a generated order), then cut. A case is non-trivial when a crash offset lies strictly "
         "inside a record or between two I records; distinct = distinct canonical JSON of the case")
 ASSUMPTIONS = [
     "the re-run uses 'the same experiment': an identically constructed twin (same components in the same order, same seed, same description)",
@@ -348,6 +350,25 @@ def resolve(records, sel):
     if sel["pos"] == "last": return e - 1
     return s + 1 + min(max(n - 3, 0), int(sel["frac"] * (n - 2)))
 
+def permute_log(log, records, gz, perm):
+    """The log a MULTI-PROCESS run could have written: same records, other arrival order. The version record and the experiment
+    record stay first and second (the main process writes them before any worker output), a trailing empty gzip member stays
+    last; every other record (E/L/V/I) may arrive in any order. perm = Fisher-Yates choices as data. Returns (log, records)."""
+    if not perm or len({(s_, e_) for s_, e_, _ in records}) != len(records):
+        return log, records
+    head = [r for r in records[:2]]
+    tail = [r for r in records[2:] if rec_type(r[2]) == "gztail"]
+    body = [r for r in records[2:] if rec_type(r[2]) != "gztail"]
+    for i in range(len(body) - 1, 0, -1):
+        j = perm[i % len(perm)] % (i + 1)
+        body[i], body[j] = body[j], body[i]
+    out, recs, pos = [], [], 0
+    for s_, e_, t in head + body + tail:
+        out.append(log[s_:e_])
+        recs.append((pos, pos + e_ - s_, t))
+        pos += e_ - s_
+    return b"".join(out), recs
+
 def run_offsets(env, desc, gz, log, records, ks, config=None):
     """check every offset; a listed finding does not stop the enumeration, anything else does"""
     known = None
@@ -365,6 +386,7 @@ def run_sweep(case):
     with Env() as env:
         env.name = case.get("name")
         log, records = baseline(env, desc, gz)
+        log, records = permute_log(log, records, gz, case.get("perm"))
         if case.get("all") and len(log) <= 2048:
             ks = range(0, len(log) + 1)
         else:
@@ -376,6 +398,7 @@ def run_point(case):
     with Env() as env:
         env.name = case.get("name")
         log, records = baseline(env, desc, gz)
+        log, records = permute_log(log, records, gz, case.get("perm"))
         known = None
         for cut in case["cuts"]:
             k = resolve(records, cut)
@@ -547,11 +570,18 @@ def selectors(draw):
             "frac": draw(st.integers(0, 99)) / 100}
 
 @st.composite
+def perms(draw, one_in_n):
+    """None (records in the order the in-process run wrote them) or Fisher-Yates choices for permute_log"""
+    if not draw(st.sampled_from([True] + [False] * (one_in_n - 1))):
+        return None
+    return [draw(st.integers(0, 23)) for _ in range(draw(st.integers(3, 12)))]
+
+@st.composite
 def sweep_cases(draw, tier):
     every = tier == "thorough" and draw(one_in(4))       # every byte offset (if the log turns out <= 2 KB)
     desc = draw(descriptors(small=every))
     return dict(draw(file_kinds()), desc=desc, fracs=[draw(st.integers(0, 99)) / 100 for _ in range(3)],
-                mt=draw(st.sampled_from([0, 0, 1, 2])), all=every)
+                mt=draw(st.sampled_from([0, 0, 1, 2])), all=every, perm=draw(perms(3)))
 
 @st.composite
 def point_cases(draw, tier):
@@ -559,14 +589,14 @@ def point_cases(draw, tier):
     cuts = [draw(selectors())]
     if draw(one_in(4)):
         cuts.append(draw(selectors()))
-    return dict(draw(file_kinds()), desc=desc, cuts=cuts, config={"maxtasksperchunk": draw(st.sampled_from([0, 0, 1, 3]))})
+    return dict(draw(file_kinds()), desc=desc, cuts=cuts, config={"maxtasksperchunk": draw(st.sampled_from([0, 0, 1, 3]))}, perm=draw(perms(2)))
 
 @st.composite
 def multiproc_cases(draw, tier):
     desc = draw(descriptors(timing=False))
     cfg = draw(st.sampled_from([{"processes": 2}, {"processes": 2, "maxtasksperchunk": 1}, {"processes": 1, "maxchunksperchild": 1},
                                 {"processes": 2, "maxchunksperchild": 2, "maxtasksperchunk": 2}]))
-    return dict(draw(file_kinds()), desc=desc, cuts=[draw(selectors())], config=cfg)
+    return dict(draw(file_kinds()), desc=desc, cuts=[draw(selectors())], config=cfg, perm=draw(perms(2)))
 
 @st.composite
 def kill_cases(draw, tier):
@@ -658,6 +688,7 @@ def desc_classes(desc):
     return out
 
 def kind_class(case):
+    if case.get("perm"): return kind_class(dict(case, perm=None)) + "+permuted"
     return ("gz-name:" + case["name"]) if case.get("name") else ("gz" if case["gz"] else "plain")
 
 def classes_kill(case):
